@@ -350,6 +350,14 @@ struct node {
     node    *next;
 };
 """,
+    "wrap": """
+struct wrap {
+    struct inner_tag {
+        uint8 a;
+    } in;
+    uint8   after;
+};
+""",
     "typedefs": """
 typedef uint32 DWORD;
 typedef uint8 * PBYTE;
@@ -365,10 +373,10 @@ typedef struct {
 } solo_t, solo2_t;
 """,
 }
-ORDER = ["consts", "color", "perm", "anon_enum", "point", "packet", "value", "node", "typedefs", "shadow", "redef"]
+ORDER = ["consts", "color", "perm", "anon_enum", "point", "packet", "value", "node", "wrap", "typedefs", "shadow", "redef"]
 # packet needs consts, color and point before it; typedefs stand alone; the others are unrelated to each other
-REORDERED = [["color", "consts", "point", "perm", "node", "redef", "packet", "typedefs", "value", "shadow", "anon_enum"],
-             ["typedefs", "redef", "node", "value", "anon_enum", "perm", "point", "color", "consts", "shadow", "packet"]]
+REORDERED = [["color", "consts", "point", "perm", "node", "redef", "packet", "typedefs", "value", "wrap", "shadow", "anon_enum"],
+             ["wrap", "typedefs", "redef", "node", "value", "anon_enum", "perm", "point", "color", "consts", "shadow", "packet"]]
 
 
 def base_text(order: list[str] | None = None) -> str:
@@ -430,6 +438,8 @@ def expected_tables() -> dict:
             "Color": color, "Perm": ("flag", "Perm", "uint16", (("R", 4), ("W", 8), ("X", 0x40), ("RW", 6), ("NEXT", 8))), "point": point, "packet": packet,
             "value": ("union", "value", False, False, (("num", "uint32", None), ("text", ("array", "char", 4), None))),
             "node": ("struct", "node", False, False, (("id", "uint8", None), ("next", ("pointer", ("struct", "node")), None))),
+            # a tag declared in place names the nested structure but is not registered: 'inner_tag' is no typedef
+            "wrap": ("struct", "wrap", False, False, (("in", ("struct", "inner_tag", False, False, (("a", "uint8", None),)), None), ("after", "uint8", None))),
             "DWORD": "uint32", "PBYTE": ("pointer", "uint8"), "name_t": ("array", "char", 16), "_HEADER": header, "HEADER": header, "HEADER2": header,
             "_LINK": ("struct", "_LINK", False, False, (("v", "uint8", None),)), "PLINK": ("pointer", ("struct", "_LINK")), "solo_t": solo, "solo2_t": solo,
             "shadow": ("struct", "shadow", False, False, (("count", "uint8", None), ("d", ("array", "uint8", ("expr", "count")), None), ("e", ("array", "uint8", 3), None),
